@@ -1551,7 +1551,8 @@ Notes:
         return cons
     import mystic.symbolic as ms #XXX: randomness due to sympy?
     cons = ms.symbolic_bounds(min, max) #XXX: how clipping with symbolic?
-    cons = ms.generate_constraint(ms.generate_solvers(ms.simplify(cons))) #join?
+    #NOTE: each line already has the form 'xi >= min[i]' or 'xi <= max[i]'
+    cons = ms.generate_constraint(ms.generate_solvers(cons)) #join?
     return cons
 
 
